@@ -267,3 +267,42 @@ Proof.
     + intros i Hi. destruct (HF i Hi) as (_ & Es). rewrite nth_map_FR in Es. rewrite <- Es.
       apply Rsum_ext. intros j Hj. now rewrite nth_map_FR.
 Qed.
+
+(* ---------------------------------------------------------------- a concrete float system for the examples *)
+Lemma no_underflow_ge_small x : / 1024 <= Rabs x -> no_underflow x.
+Proof.
+  intros H. right. apply Rle_trans with (bpow radix2 (-10)); [apply bpow_le; lia|].
+  change (bpow radix2 (-10)) with (/ 1024). exact H.
+Qed.
+
+(* [[2,1],[0,3]] x = [1,1]: x_1 = fl(1/3) is inexact *)
+Definition exf_m : matrix AF := @mkM AF [2%float; 1%float; 0%float; 3%float] 2 2.
+Definition exf_b : list pfloat := [1%float; 1%float].
+Definition exf_x : list pfloat := [((1 - 1 * (1 / 3)) / 2)%float; (1 / 3)%float].
+
+Lemma exf_backsolve : backsolve (A := AF) exf_m exf_b = Ok exf_x.
+Proof. vm_compute. reflexivity. Qed.
+
+Lemma exf_conditions :
+  (forall k, (k < rows exf_m)%nat -> ffinite (nth k exf_x 0%float) /\ fentry exf_m k k <> 0) /\
+  (forall k j, (k < j)%nat -> (j < rows exf_m)%nat -> no_underflow (fentry exf_m k j * FR (nth j exf_x 0%float))) /\
+  (forall k, (k < rows exf_m)%nat -> no_underflow (FR (racc (A := AF) exf_m exf_b exf_x k (rows exf_m)) / fentry exf_m k k)).
+Proof.
+  assert (E1 : FR 1%float = 1) by fr_eval. assert (E2 : FR 2%float = 2) by fr_eval.
+  assert (E3 : FR 3%float = 3) by fr_eval.
+  assert (B3 : / 4 <= FR (1 / 3)%float <= / 2) by (split; fr_eval).
+  assert (B23 : / 2 <= FR (1 - 1 * (1 / 3))%float <= 1) by (split; fr_eval).
+  split; [|split].
+  - intros [|[|k]] Hk; cbn in Hk; try lia; (split; [apply ffinite_SF; reflexivity|]);
+      unfold fentry; cbn [nth exf_m buf cols Nat.mul Nat.add]; rewrite ?E2, ?E3; lra.
+  - intros [|[|k]] [|[|j]] Hkj Hj; cbn in Hj; try lia.
+    unfold fentry; cbn [nth exf_m exf_x buf cols Nat.mul Nat.add]. rewrite E1.
+    apply no_underflow_ge_small. rewrite Rabs_pos_eq; lra.
+  - intros [|[|k]] Hk; cbn in Hk; try lia; apply no_underflow_ge_small.
+    + change (racc (A := AF) exf_m exf_b exf_x 0 (rows exf_m)) with (1 - 1 * (1 / 3))%float.
+      unfold fentry; cbn [nth exf_m buf cols Nat.mul Nat.add]. rewrite E2.
+      rewrite Rabs_pos_eq; [|apply Rmult_le_pos; lra]. lra.
+    + change (racc (A := AF) exf_m exf_b exf_x 1 (rows exf_m)) with 1%float.
+      unfold fentry; cbn [nth exf_m buf cols Nat.mul Nat.add]. rewrite E1, E3.
+      rewrite Rabs_pos_eq; lra.
+Qed.
